@@ -1,6 +1,7 @@
 import NurbsVerif.Driver.Basic
+import NurbsVerif.Driver.Shape
 namespace Drv
-def handlers : List (List String → Option String) := [handleBasic]
+def handlers : List (List String → Option String) := [handleBasic, handleShape]
 def step (line : String) : String :=
   let toks := (line.trimAscii.toString.splitOn " ").filter (· ≠ "")
   match handlers.findSome? (fun h => h toks) with
